@@ -58,6 +58,13 @@ def tables(rnd, quick):
     out.append([{'kind': 'dynbytes', 'prefix': b'/l/', 'urls': []}, {'kind': 'static', 'prefix': b'/a/', 'urls': [URLS[0]]}])
     out.append([{'kind': 'dynurl', 'prefix': b'/d/', 'urls': [URLS[1]]}, {'kind': 'static', 'prefix': b'/d/x', 'urls': [URLS[4]]}])   # overlapping
     out.append([{'kind': 'static', 'prefix': b'/a/', 'urls': [URLS[0]]}, {'kind': 'static', 'prefix': b'/a/b/', 'urls': [URLS[3]]}])     # overlapping
+    # two routes whose upstreams share the HOST and differ in the PORT only (explicit / explicit, default / explicit, IP literal): a
+    # kept-alive client connection that visits both must get a connection to each (seed C12d: upstream reuse decided by host alone)
+    out.append([{'kind': 'static', 'prefix': b'/a/', 'urls': [b'http://a.example:8080/p1']}, {'kind': 'static', 'prefix': b'/b/', 'urls': [b'http://a.example:81/p2']}])
+    out.append([{'kind': 'static', 'prefix': b'/a/', 'urls': [b'http://a.example/p1']}, {'kind': 'static', 'prefix': b'/b/', 'urls': [b'http://a.example:8080/p2']}])
+    out.append([{'kind': 'static', 'prefix': b'/a/', 'urls': [b'http://10.1.2.3:8000/']}, {'kind': 'dynurl', 'prefix': b'/d/', 'urls': [b'http://10.1.2.3:8001/']}])
+    # same port, hosts differing only in a suffix / case
+    out.append([{'kind': 'static', 'prefix': b'/a/', 'urls': [b'http://a.example:8080/p1']}, {'kind': 'static', 'prefix': b'/b/', 'urls': [b'http://a.example.org:8080/p2']}])
     return out
 
 
@@ -83,7 +90,9 @@ def run(chk):
         plugin = plugin_for(table)
         reqs = requests(rnd)
         seqs = [[r] for r in reqs] + [[rnd.choice(reqs), rnd.choice(reqs)] for _ in range(6 if quick else 30)] + \
-            [[reqs[0], reqs[6]], [reqs[6], reqs[0]], [reqs[0], reqs[7]]]
+            [[reqs[0], reqs[6]], [reqs[6], reqs[0]], [reqs[0], reqs[7]]] + \
+            [[reqs[0], reqs[3]], [reqs[3], reqs[0]], [reqs[0], reqs[3], reqs[0]], [reqs[0], reqs[4], reqs[0]], [reqs[4], reqs[0], reqs[4]],
+             [reqs[0], reqs[0], reqs[3], reqs[3]]]
         for rewrite in (False, True):
             for seq in seqs:
                 if quick and len(seq) == 1 and rnd.random() > 0.6:
